@@ -165,7 +165,10 @@ AlignTgClauses(e) ==
     C14_align_reference_tier_untouched |-> (RetTg(e) /\ HasName(pre, ref) /\ HasName(r, ref)) => TierNamed(r, ref) = TierNamed(pre, ref),
     C14_align_applies_dejitter_to_every_other_tier |-> (RetTg(e) /\ Len(r.tiers) = Len(e.each)) =>
         \A i \in Idx(e.each) : e.each[i].st = "ok" => r.tiers[i] = e.each[i].ret,
-    C14_align_fails_only_if_a_dejitter_fails_or_reference_too_dense |-> (AllEachOk(e) /\ ~e.args.dense) => OkE(e) ]
+    \* "too dense": two reference timestamps closer than maxDifference; exactly maxDifference apart is not too dense, but under
+    \* inexact arithmetic the computed difference decides
+    C14_align_fails_only_if_a_dejitter_fails_or_reference_too_dense |->
+        (AllEachOk(e) /\ ~e.args.dense /\ (e.exactfp \/ ~e.args.tie)) => OkE(e) ]
 
 NewTgClauses(e) ==
   [ C13_new_is_equal_copy |-> RetTg(e) /\ e.ret = e.pre,
